@@ -291,3 +291,37 @@ Theorem C15_red_run_no_panic : forall defer_err n (evs : list revent), 0 < n ->
   match r_run defer_err n r_init evs with Ok _ => True | _ => False end.
 Proof. exact red_run_no_panic. Qed.
 Print Assumptions C15_red_run_no_panic.
+
+(* ---- multi_stream: one response-timeout budget per request ---- *)
+Theorem C15_ms_request_budget : forall T atts delays, mres_time (c15_ms_request T atts delays) <= T.
+Proof. exact ms_request_budget. Qed.
+Print Assumptions C15_ms_request_budget.
+
+Theorem C15_ms_request_within_budget : forall T (atts : list catt) start now count delays,
+  start <= now <= start + T ->
+  mres_time (ms_request T start now count atts delays) <= start + T.
+Proof. exact ms_request_within_budget. Qed.
+Print Assumptions C15_ms_request_within_budget.
+
+Theorem C15_ms_timeout_exact : forall T (atts : list catt) start now count delays t,
+  start <= now <= start + T ->
+  ms_request T start now count atts delays = MErrTimeout t -> t = start + T.
+Proof. exact ms_timeout_exact. Qed.
+Print Assumptions C15_ms_timeout_exact.
+
+Theorem C15_ms_awaits_pinned : ms_all_awaits_bounded = true /\ ms_immediate_retry_at = 1.
+Proof. exact ms_awaits_pinned. Qed.
+Print Assumptions C15_ms_awaits_pinned.
+
+(* ---- load_balancer: locally generated answers ---- *)
+Theorem C15_lb_local_answers : forall rid rqr qs has_opt,
+  m_id (lb_local rid rqr qs has_opt) = rid /\
+  m_qs (lb_local rid rqr qs has_opt) = Some qs /\
+  m_qd (lb_local rid rqr qs has_opt) = lenN qs /\
+  m_rcode (lb_local rid rqr qs has_opt) = 2.
+Proof. exact lb_local_answers. Qed.
+Print Assumptions C15_lb_local_answers.
+
+Theorem C15_lb_usable_spec : forall mb b, lb_usable (Some mb, b) = true <-> b <= mb.
+Proof. exact lb_usable_spec. Qed.
+Print Assumptions C15_lb_usable_spec.
